@@ -144,6 +144,17 @@ class Threadless(ABC, Generic[T]):
     async def _update_work_events(self, work_id: int) -> None:
         assert self.selector is not None
         worker_events = await self.works[work_id].get_events()
+        # Unregister descriptors the work is no longer interested in e.g.
+        # an upstream connection it has closed.  Otherwise a later socket
+        # reusing the same descriptor number would be taken for registered
+        # and never be polled.
+        registered_events = self.registered_events_by_work_ids.get(work_id, {})
+        for fileno in [f for f in registered_events if f not in worker_events]:
+            try:
+                self.selector.unregister(fileno)
+            except (KeyError, ValueError):
+                pass
+            del registered_events[fileno]
         # NOTE: Current assumption is that multiple works will not
         # be interested in the same fd.  Descriptors of interests
         # returned by work must be unique.
